@@ -6,13 +6,33 @@ import warnings
 
 import numpy as np
 
-import pygradflow.timer as pg_timer
+from .clock import T0, VirtualClock
+
+# Even the clock reads a module might make while it is being *imported* (a default argument
+# evaluated at import time, a module-level timestamp) are virtual: pygradflow.timer is imported
+# with a stand-in `time` module that reports the virtual boot time of the process.
+import sys as _sys
+import types as _types
+
+if "pygradflow.timer" not in _sys.modules:
+    _real_time = _sys.modules.get("time")
+    _boot = _types.ModuleType("time")
+    _boot.time = lambda: T0 - 5.0
+    _sys.modules["time"] = _boot
+    try:
+        import pygradflow.timer as pg_timer
+    finally:
+        if _real_time is not None:
+            _sys.modules["time"] = _real_time
+        else:
+            del _sys.modules["time"]
+else:
+    import pygradflow.timer as pg_timer
 from pygradflow.callbacks import CallbackType
 from pygradflow.params import Params
 from pygradflow.scale import Scaling
 from pygradflow.solver import Solver
 
-from .clock import VirtualClock
 from .devices import LIN, SimProblem
 from .model import RefTransform, weights_of
 from .util import Digest, fb
@@ -170,6 +190,7 @@ class Execution:
         self.lin_counts = (0, 0, 0)
         self.step_cap = 20000
         self.t_begin = None
+        self.reads_at_begin = 0
         self.aborted = False
 
     def log(self, ev):
@@ -362,7 +383,10 @@ def execute(world, *, problem=None, solver=None, params=None, reuse_solver=False
         problem.oob = []
         problem.calls = []
         problem.armed = True
+        # virtual time may pass between building the solver and calling solve()
+        clock.t += float((world.get("clock") or {}).get("gap_before_solve", 0.0))
         ex.t_begin = clock.t
+        ex.reads_at_begin = clock.n
         ex.log(("solve.begin",))
         try:
             r = solver.solve(ex.x0_arg, ex.y0_arg)
